@@ -31,7 +31,8 @@ HORIZON = 40.0
 
 
 def configs():
-    for form in ("dec", "wait"):
+    # "decs": the decorated function also carries @time_trigger("startup"), which uses up the first pass of the (legacy) trigger loop
+    for form in ("dec", "wait", "decs"):
         for cn in (None, False, True):
             for hold in (None, 0, S):
                 for hf in (None, 0, H):
@@ -78,10 +79,11 @@ def script(form, cn, hold, hf):
     if hf is not None:
         kw.append(f"state_hold_false={hf}")
     opts = "".join(", " + k for k in kw)
-    if form == "dec":
+    if form in ("dec", "decs"):
+        extra = '@time_trigger("startup")\n' if form == "decs" else ""
         return f'''
 calls = []
-@state_trigger("{EXPR}"{opts})
+{extra}@state_trigger("{EXPR}"{opts})
 def f(**kw):
     v = kw.get("value")
     calls.append((NOW(), kw.get("trigger_type"), kw.get("var_name"), None if v is None else str(v), getattr(v, "x", None)))
@@ -98,7 +100,7 @@ def go():
 
 def reference(cfg, hist):
     form, cn, hold, hf, init_true = cfg
-    check_now = bool(cn) if form == "dec" else (True if cn is None else bool(cn))
+    check_now = bool(cn) if form in ("dec", "decs") else (True if cn is None else bool(cn))
     a, b, x = ("1" if init_true else "0"), "0", 0
     t = 0.0
     evals = []
@@ -126,6 +128,9 @@ def reference(cfg, hist):
             out.append((round(tt, 3), "state", args[0], args[1], args[2]))
     if form == "wait":
         out = out[:1]  # wait_until returns at the first occurrence; later ones have no effect
+    if form == "decs":
+        # the startup run comes first; a definition-time state occurrence in the same instant follows it
+        out = [(0.0, "time", None, None, None)] + out
     return out
 
 
@@ -212,6 +217,8 @@ def run_shard(shard):
     for hist in histories(tier):
         if not valid(hist, cfg[4]):
             continue
+        if tier == "quick" and cfg[0] == "decs" and len(hist) > 1:
+            continue  # quick: the startup-trigger form with histories of length <= 1 (thorough: all)
         i += 1
         if i % n != k:
             continue
